@@ -2,7 +2,7 @@
    DecodeBoxSR whose decoded tree is `exact` is reproduced byte for byte by the encoders when the captured
    reserved bytes are put back.  Parametric in the leaf table (leaf_table_ok). *)
 From V.lib Require Import Base.
-From V.c01 Require Import C01Codec C01Model C01LeafProofs.
+From V.c01 Require Import C01Codec C01Model C01LeafProofs C01TableProofs.
 
 Lemma bytes_eqb_eq x y : bytes_eqb x y = true -> x = y.
 Proof.
